@@ -68,7 +68,7 @@ def build_programs(ctx, items, configs, builder, batch=BATCH):
     return progs
 
 
-def _semdrive(bins, mod, pattern, taint, backtrace, out, timeout, pointer=()):
+def _semdrive(bins, mod, pattern, taint, backtrace, out, timeout, pointer=(), escape=()):
     cmd = [bins["semdrive"], "-dir", mod, "-pattern", pattern, "-out", out]
     if taint:
         cmd += ["-taint", ",".join(os.path.join(mod, c.split(":")[0] + ".yaml") + (":rw" if c.endswith(":rw") else "")
@@ -77,6 +77,8 @@ def _semdrive(bins, mod, pattern, taint, backtrace, out, timeout, pointer=()):
         cmd += ["-backtrace", ",".join(os.path.join(mod, c + ".yaml") for c in backtrace)]
     if pointer:
         cmd += ["-pointer", ",".join(os.path.join(mod, c + ".yaml") for c in pointer)]
+    if escape:
+        cmd += ["-escape", ",".join(os.path.join(mod, c + ".yaml") for c in escape)]
     env = vlib.goenv()
     env["GOMAXPROCS"] = "2"   # 16 drivers run in parallel
     try:
@@ -93,11 +95,12 @@ def _split_facts(f, plist):
     """distribute the facts of one semdrive run over its programs; returns reason if they are unusable"""
     if f.get("loaderr"):
         return "load error: " + f["loaderr"]
-    for name, t in list(f["taint"].items()) + list(f["backtrace"].items()) + list(f.get("pointer", {}).items()):
+    for name, t in list(f["taint"].items()) + list(f["backtrace"].items()) + list(f.get("pointer", {}).items()) + \
+            list(f.get("escape", {}).items()):
         if t["panic"]:
             return "panic in %s: %s" % (name, t["panic"][:1500])
     for p in plist:
-        p.facts = {"taint": {}, "backtrace": {}, "pointer": {}}
+        p.facts = {"taint": {}, "backtrace": {}, "pointer": {}, "escape": {}}
     byname = {p.name: p for p in plist}
     for name, t in f["taint"].items():
         for p in plist:
@@ -114,6 +117,14 @@ def _split_facts(f, plist):
         for tr in t["traces"]:
             if tr["prog"] in byname:
                 byname[tr["prog"]].facts["backtrace"][name]["traces"].append(tr)
+    for name, t in f.get("escape", {}).items():
+        if t.get("err"):
+            return "escape facts error in %s: %s" % (name, t["err"])
+        for p in plist:
+            p.facts["escape"][name] = {"local": [], "nonlocal": []}
+        for e in t["lines"]:
+            if e["prog"] in byname:
+                byname[e["prog"]].facts["escape"][name]["local" if e["local"] else "nonlocal"].append(e["line"])
     for name, t in f.get("pointer", {}).items():
         if t.get("err"):
             return "pointer facts error in %s: %s" % (name, t["err"])
@@ -140,7 +151,7 @@ def _split_facts(f, plist):
     return None
 
 
-def drive(ctx, bins, progs, taint=(), backtrace=(), nproc=None, timeout=900, pointer=()):
+def drive(ctx, bins, progs, taint=(), backtrace=(), nproc=None, timeout=900, pointer=(), escape=()):
     """run the real analyses (semdrive) module by module (parallel); a module whose run fails is re-run program by
     program so that one crashing program does not take the facts of the others with it.  Sets p.facts / p.absent."""
     mods = {}
@@ -149,13 +160,13 @@ def drive(ctx, bins, progs, taint=(), backtrace=(), nproc=None, timeout=900, poi
 
     def one(mod):
         plist = mods[mod]
-        f, err = _semdrive(bins, mod, "./...", taint, backtrace, os.path.join(mod, "facts.json"), timeout, pointer)
+        f, err = _semdrive(bins, mod, "./...", taint, backtrace, os.path.join(mod, "facts.json"), timeout, pointer, escape)
         if f is not None:
             err = _split_facts(f, plist)
         if err is None:
             return
         for p in plist:   # isolate
-            f, err1 = _semdrive(bins, mod, "./" + p.name, taint, backtrace, os.path.join(p.dir, "facts.json"), timeout, pointer)
+            f, err1 = _semdrive(bins, mod, "./" + p.name, taint, backtrace, os.path.join(p.dir, "facts.json"), timeout, pointer, escape)
             if f is not None:
                 err1 = _split_facts(f, [p])
             if err1 is not None:
@@ -277,8 +288,13 @@ def taint_facts_of(p):
     cfgs = []
     for name in sorted(p.facts["taint"]):
         t = p.facts["taint"][name]
-        cfgs.append({"name": name, "flows": t["flows"], "escapes": t["escapes"], "esc": False})
+        cfgs.append({"name": name, "flows": t["flows"], "escapes": t["escapes"], "esc": name.startswith("e")})
     return {"cfgs": cfgs}
+
+
+ESC_CONFIGS = {"e00": {"use-escape-analysis": True},
+               "e01": {"use-escape-analysis": True, "summarize-on-demand": True},
+               "e10": {"use-escape-analysis": True, "field-sensitive": True}}
 
 
 CAPTURING = {"capread", "capwrite", "deferclo", "defernamed"}
@@ -341,14 +357,15 @@ def bt_facts_of(p):
     return {"cfgs": cfgs}
 
 
-def taint_flow_check(ctx, items, builder, nexh, nsim, runs=None, prop_what="taint analysis misses the flow", mode="taint"):
+def taint_flow_check(ctx, items, builder, nexh, nsim, runs=None, prop_what="taint analysis misses the flow", mode="taint",
+                     configs=None):
     """the common body of C01 / C02 / C03: programs -> real facts -> GoSem+Obs_* -> native confirmation -> verdicts"""
     thorough = ctx.tier == "thorough"
     bins = ctx.build(["semdrive"])
     evkind = "flow" if mode == "taint" else "bt"
     if mode == "taint":
-        runs = runs or ALL_TAINT_RUNS
-        progs = build_programs(ctx, items, TAINT_CONFIGS, builder)
+        runs = runs or (list(configs) if configs else ALL_TAINT_RUNS)
+        progs = build_programs(ctx, items, configs or TAINT_CONFIGS, builder)
         drive(ctx, bins, progs, taint=runs)
     else:
         runs = runs or list(BT_CONFIGS)
@@ -523,6 +540,13 @@ def calls_check(ctx, whats, prop_text):
         raise Inconclusive("MODEL-MISMATCH: executed functions differ on %d programs, e.g. chain %s: only model %s, "
                            "only native %s" % (len(bad), p.meta.get("chain"), a, b))
     ctx.traces += sum(len(p.native) for p in nat)
+    if os.environ.get("VERIF_DUMP_MISSES"):
+        with open(os.environ["VERIF_DUMP_MISSES"], "w") as fh:
+            for m in misses:
+                fh.write(json.dumps({"chain": m["prog"].meta.get("chain"), "what": m["what"], "site": m["site"],
+                                     "callee": m["callee"], "dec": bits_of(m["dec"])}) + "\n")
+            for p_, why in absent:
+                fh.write(json.dumps({"chain": p_.meta.get("chain"), "absent": why[:3000]}) + "\n")
     nviol = 0
     seen = set()
     for m in misses:
@@ -631,6 +655,13 @@ def alias_check(ctx):
         raise Inconclusive("MODEL-MISMATCH: run-time alias pairs differ on %d programs, e.g. chain %s: only model %s, "
                            "only native %s" % (len(bad), p.meta.get("chain"), a, b))
     ctx.traces += sum(len(p.native) for p in nat)
+    if os.environ.get("VERIF_DUMP_MISSES"):
+        with open(os.environ["VERIF_DUMP_MISSES"], "w") as fh:
+            for m in misses:
+                fh.write(json.dumps({"chain": m["prog"].meta.get("chain"), "what": m["what"], "a": m["a"], "b": m["b"],
+                                     "c": m["c"], "dec": bits_of(m["dec"])}) + "\n")
+            for p_, why in absent:
+                fh.write(json.dumps({"chain": p_.meta.get("chain"), "absent": why[:3000]}) + "\n")
     nviol = 0
     seen = set()
     for m in misses:
@@ -669,3 +700,124 @@ def alias_check(ctx):
     ctx.finish_args = dict(exhaustive=True, evaluations=len(progs), distinct=len(progs),
                            rule="one case = one generated program with probes after every pointer-like carrier; "
                                 "distinct = distinct chains")
+
+
+def shared_facts_of(p):
+    return {"cfgs": [{"name": n, "local": sorted(set(v["local"]))} for n, v in sorted(p.facts["escape"].items())]}
+
+
+def shared_check(ctx, items, builder, nexh, nsim):
+    """C14: lines the real escape analysis classifies as local in every derived context must never access memory
+    that GoSem finds reachable from another goroutine (all schedules)."""
+    thorough = ctx.tier == "thorough"
+    bins = ctx.build(["semdrive"])
+    cfgs = {"esc": {"use-escape-analysis": True}}
+    progs = build_programs(ctx, items, cfgs, builder)
+    drive(ctx, bins, progs, escape=["esc"])
+    ok = [p for p in progs if p.facts is not None]
+    absent = [(p, p.absent or "no facts") for p in progs if p.facts is None]
+    if len(absent) > max(3, len(progs) // 20):
+        raise Inconclusive("analyzer facts absent for %d/%d programs, e.g. %s: %s" % (
+            len(absent), len(progs), absent[0][0].meta, absent[0][1]))
+    truth, misses = tlc_batches(ctx, ok, "Obs_Shared", "Obs_Shared.cfg", shared_facts_of, nbatch=8,
+                                timeout=3000 if thorough else 1200)
+    nat = native_subset(ctx, ok, misses, 600 if thorough else 80)
+    native_all(ctx, nat)
+    bad = check_model_vs_native(ctx, nat, truth, kinds=("flow",))
+    if bad:
+        p, a, b = bad[0]
+        raise Inconclusive("MODEL-MISMATCH: GoSem and the native run disagree on %d programs, e.g. chain %s: only model "
+                           "%s, only native %s" % (len(bad), p.meta.get("chain"), a, b))
+    ctx.traces += sum(len(p.native) for p in nat)
+    if os.environ.get("VERIF_DUMP_MISSES"):
+        with open(os.environ["VERIF_DUMP_MISSES"], "w") as fh:
+            for m in misses:
+                fh.write(json.dumps({"chain": m["prog"].meta.get("chain"), "meta": m["prog"].meta, "line": m["line"],
+                                     "src": open(os.path.join(m["prog"].dir, "main.go")).read().split("\n")[m["line"] - 1]}) + "\n")
+            for p_, why in absent:
+                fh.write(json.dumps({"chain": p_.meta.get("chain"), "absent": why[:3000]}) + "\n")
+    seen = set()
+    nviol = 0
+    for m in misses:
+        p = m["prog"]
+        chain = p.meta.get("chain")
+        key = (p.idx, m["line"])
+        if key in seen:
+            continue
+        seen.add(key)
+        kid = known_construct(ctx, chain, [m["cfg"]])
+        if kid:
+            ctx.known(kid, "%s (e.g. chain %s)" % (ctx.known_entry(kid)["what"], chain))
+            continue
+        nviol += 1
+        if nviol <= 25:
+            srcline = open(os.path.join(p.dir, "main.go")).read().split("\n")[m["line"] - 1].strip()
+            ctx.violation("the escape analysis classifies line %d (`%s`) as thread-local in every context, but GoSem "
+                          "exhibits an execution (decisions '%s', schedule %s) in which goroutine %d accesses there an "
+                          "object reachable from another goroutine; generated program with chain %s (src_in_go=%s, "
+                          "sink_in_go=%s); the program's GoSem semantics is validated natively" % (
+                              m["line"], srcline, bits_of(m["dec"]), m["sched"], m["gor"], chain,
+                              p.meta.get("src_in_go"), p.meta.get("sink_in_go")),
+                          {"main.go": open(os.path.join(p.dir, "main.go")).read(), "prog.json": json.dumps(p.flat),
+                           "facts.json": json.dumps(p.facts)}, key="C14/%s/%d" % (json.dumps(p.meta), m["line"]))
+    nsh = len({(t["prog"].idx, t["ev"]["a"]) for t in truth if t["ev"]["e"] == "shared"})
+    nloc = sum(len(set(p.facts["escape"]["esc"]["local"])) for p in ok)
+    mid = ok[len(ok) // 2]
+    ctx.sample({"chain": mid.meta, "main.go": open(os.path.join(mid.dir, "main.go")).read()[-1500:],
+                "local_lines": sorted(set(mid.facts["escape"]["esc"]["local"]))})
+    ctx.extra.update({"programs": len(progs), "programs_checked": len(ok), "facts_absent": len(absent),
+                      "exhaustive_chains": nexh, "simulated_chains": nsim, "shared_access_lines": nsh,
+                      "lines_classified_local": nloc, "native_runs": ctx.traces})
+    ctx.assumptions += ["reachability from another goroutine is decided by GoSem (heap reachability from the frames, "
+                        "closures and channel buffers of the other running goroutines and from globals) over all "
+                        "schedules; the native run validates GoSem's executions (flows), not the reachability itself",
+                        "locality is compared per source line: a line counts as local only if all its classified "
+                        "instructions are local in the merged context of every reachable function"]
+    ctx.finish_args = dict(exhaustive=True, evaluations=len(progs), distinct=len(progs),
+                           rule="one case = one generated concurrent program (chain with a goroutine-decorated step, "
+                                "source or sink); distinct = distinct (chain, placement) pairs")
+
+
+def replay(ctx, path, mode="taint", configs=None):
+    """./check <ID> --replay <dir>: re-run the real analysis, GoSem (+Obs) and the native witness on the program
+    stored in a replay directory; prints the VIOLATION line again if the property still fails on the current /repo."""
+    import shutil
+    flat = json.load(open(os.path.join(path, "prog.json")))
+    bins = ctx.build(["semdrive"])
+    cfgs = configs or {"taint": TAINT_CONFIGS, "bt": BT_CONFIGS, "esc": ESC_CONFIGS}[mode]
+    mod = os.path.join(ctx.work, "progs", "m0000")
+    minigo.write_module(mod, cfgs)
+    d = os.path.join(mod, "p00000")
+    os.makedirs(d)
+    shutil.copy(os.path.join(path, "main.go"), d)
+    here = os.path.dirname(os.path.abspath(__file__))
+    for f in ("roles_stub.go", "roles_native.go"):
+        shutil.copy(os.path.join(here, "roles", f), d)
+    p = Program(0, "p00000", mod, d, None, flat, flat.get("meta", {}))
+    if mode == "bt":
+        drive(ctx, bins, [p], backtrace=list(cfgs))
+        spec, fo, evk = ("Obs_Back", bt_facts_of, "bt")
+    else:
+        drive(ctx, bins, [p], taint=(ALL_TAINT_RUNS if mode == "taint" else list(cfgs)))
+        spec, fo, evk = ("Obs_Taint", taint_facts_of, "flow")
+    if p.facts is None:
+        raise Inconclusive("analyzer facts absent: %s" % p.absent)
+    truth, misses = tlc_batches(ctx, [p], spec, spec + ".cfg", fo, nbatch=1)
+    native_all(ctx, [p])
+    still = 0
+    for m in misses:
+        if m.get("illformed"):
+            still += 1
+            continue
+        run_ = native_script(p, bits_of(m["dec"]))
+        if any(e["e"] == evk and e["a"] == m["src"] and e["b"] == m["sink"] and not e["v"] for e in run_["events"]):
+            still += 1
+            print("still failing: %s source@%d -> sink@%d config %s script '%s'" % (evk, m["src"], m["sink"], m["cfg"], bits_of(m["dec"])))
+    if still:
+        print("VIOLATION property=%s replay=%s" % (ctx.prop, path))
+        ctx.violations.append({"what": "replay", "replay": path})
+    else:
+        print("replay: the property holds on this input now")
+    ctx.finish_args = dict(exhaustive=False, evaluations=1, distinct=1, rule="replay of one stored input")
+    ctx.sample({"replayed": path, "still_failing": still})
+    ctx.traces += 1
